@@ -15,6 +15,7 @@ import (
 	"strings"
 	"time"
 
+	"github.com/cespare/xxhash/v2"
 	commonmodels "github.com/lindb/common/models"
 
 	"github.com/lindb/lindb/internal/vbox"
@@ -234,6 +235,14 @@ func (w *world) permsOf(n int) [][]int {
 
 // write routes the data set over the layout's shards (broker routing code) into a fresh metric.
 func (w *world) write(data []int, lay layoutT) (metric string, used map[int]bool) {
+	var pts []pt
+	for _, di := range data {
+		pts = append(pts, alphabet[di])
+	}
+	return w.writePts(pts, lay)
+}
+
+func (w *world) writePts(data []pt, lay layoutT) (metric string, used map[int]bool) {
 	w.seq++
 	metric = fmt.Sprintf("m%d", w.seq)
 	owner := map[int]string{}
@@ -243,8 +252,7 @@ func (w *world) write(data []int, lay layoutT) (metric string, used map[int]bool
 		}
 	}
 	used = map[int]bool{}
-	for _, di := range data {
-		p := alphabet[di]
+	for _, p := range data {
 		tags := map[string]string{"host": p.Host}
 		if p.DC != "" {
 			tags["dc"] = p.DC
@@ -383,6 +391,7 @@ func (w *world) run(sql string, lay layoutT) *grid {
 // answers at that node) and through 2 intermediate nodes (natural order), against the reference run.
 func (w *world) viaIntermediates(sql string, lay layoutT, want verdict, viol func(clause string, nInter int, order []int, wantS string, got verdict, note string)) {
 	leaves := lay.leaves()
+	var oneReceiver map[string][]string // leaf -> its groups when it answers to one receiver
 	for nInter := 1; nInter <= 2; nInter++ {
 		cache := &vbox.TierCache{}
 		var base verdict
@@ -407,6 +416,11 @@ func (w *world) viaIntermediates(sql string, lay layoutT, want verdict, viol fun
 				note = fmt.Sprintf(" (receive-only nodes %v never answer the root; %d leaf responses addressed to them were dropped)", tr.ReceiveOnly, tr.DroppedResps)
 			}
 			if oi == 0 {
+				// the split of a leaf's groups over the receivers: every group of the leaf's one-receiver answer goes to
+				// exactly one receiver, with the same data, and equal tags of different leaves go to the same receiver
+				if bad := splitOracle(tr, nInter, &oneReceiver); bad != "" {
+					viol("intermediate.leaf_split", nInter, order, "every group of a leaf's answer at exactly one receiver", verdict{Err: bad}, "")
+				}
 				base = got
 				if !same(got, want) {
 					clause := "intermediate.different_answer"
@@ -426,6 +440,71 @@ func (w *world) viaIntermediates(sql string, lay layoutT, want verdict, viol fun
 			}
 		}
 	}
+}
+
+// splitOracle compares what the leaves answered to nInter receivers with what they answered to one.
+func splitOracle(tr *vbox.TierResult, nInter int, oneReceiver *map[string][]string) string {
+	perLeaf := map[string][]string{}
+	home := map[string]string{} // tags -> receiver
+	for _, la := range tr.LeafAnswers {
+		if la.Err != "" {
+			perLeaf[la.Leaf] = append(perLeaf[la.Leaf], "error:"+errClass(la.Err))
+			continue
+		}
+		for _, g := range la.Groups {
+			perLeaf[la.Leaf] = append(perLeaf[la.Leaf], g)
+			tags := g[:strings.Index(g, "{")]
+			if h, ok := home[tags]; ok && h != la.Receiver {
+				return fmt.Sprintf("group %s is sent to receiver %s by one leaf and to %s by leaf %s", tags, h, la.Receiver, la.Leaf)
+			}
+			home[tags] = la.Receiver
+		}
+	}
+	for _, gs := range perLeaf {
+		sort.Strings(gs)
+		// an error answer is repeated for every receiver
+		for i := len(gs) - 1; i > 0; i-- {
+			if strings.HasPrefix(gs[i], "error:") && gs[i] == gs[i-1] {
+				gs = append(gs[:i], gs[i+1:]...)
+			}
+		}
+	}
+	if nInter == 1 {
+		*oneReceiver = perLeaf
+		return ""
+	}
+	if *oneReceiver == nil {
+		return ""
+	}
+	var leaves []string
+	for l := range *oneReceiver {
+		leaves = append(leaves, l)
+	}
+	for l := range perLeaf {
+		if _, ok := (*oneReceiver)[l]; !ok {
+			leaves = append(leaves, l)
+		}
+	}
+	sort.Strings(leaves)
+	for _, l := range leaves {
+		a, b := dedupErrs((*oneReceiver)[l]), dedupErrs(perLeaf[l])
+		if strings.Join(a, ";") != strings.Join(b, ";") {
+			return fmt.Sprintf("leaf %s answers %v to one receiver and, over %d receivers %v, %v", l, a, nInter, tr.Receivers, b)
+		}
+	}
+	return ""
+}
+
+func dedupErrs(gs []string) []string {
+	var out []string
+	for i, g := range gs {
+		if i > 0 && strings.HasPrefix(g, "error:") && g == gs[i-1] {
+			continue
+		}
+		out = append(out, g)
+	}
+	sort.Strings(out)
+	return out
 }
 
 func same(a, b verdict) bool { return a.key() == b.key() && a.Canon == b.Canon }
@@ -508,6 +587,10 @@ func main() {
 		var cs caseT
 		vevid.LoadReplay(f.Replay, &cs)
 		for i := 0; i < 5; i++ {
+			if cs.Query == splitQuery.ID {
+				w.splitCase(cs.Points, []layoutT{cs.Layout})
+				continue
+			}
 			w.checkData(cs.Data, []layoutT{cs.Layout}, cs.Query)
 		}
 		rep.Write()
@@ -537,6 +620,14 @@ func main() {
 		return true
 	})
 	rep.Count("data_sets", idx)
+	if !w.noInter {
+		maxG := 5
+		if f.Thorough() {
+			maxG = 7
+		}
+		rep.Bounds["split_max_groups"] = maxG
+		w.splitStage(f, &idx, maxG)
+	}
 	rep.Write()
 }
 
@@ -681,18 +772,7 @@ func (w *world) checkData(data []int, layouts []layoutT, only string) {
 			}
 			// 4. intermediate tier (group by queries; the broker uses it only with more than one storage node)
 			if strings.Contains(q.SQL, "group by") && nLeaves >= 2 && !w.noInter {
-				w.viaIntermediates(sql, lay, want, func(clause string, nInter int, order []int, wantS string, got verdict, note string) {
-					cs := caseT{Data: data, Query: q.ID, Layout: lay, Order: order, CompAt: 0, Inter: nInter, Points: pts}
-					rep.Sample(cs)
-					scenario := q.ID
-					if clause == "intermediate.root_never_completes" || clause == "intermediate.compute_node_never_completes" {
-						scenario = fmt.Sprintf("intermediates=%d", nInter)
-					}
-					rep.Violate(vevid.Violation{Clause: clause, Scenario: scenario, Site: "query.intermediateTaskProcessor.Process",
-						Detail: fmt.Sprintf("points %v query %q layout %s via %d intermediate node(s), leaf answers delivered to the compute node in order %v%s: want %s got %s",
-							pts, q.SQL, lay, nInter, order, note, wantS, got),
-						Replay: cs})
-				})
+				w.viaIntermediates(sql, lay, want, w.interViol(data, pts, q, lay))
 			}
 			// 3. completion position (H16): every position against "completion first" of the same order
 			func() {
@@ -709,6 +789,85 @@ func (w *world) checkData(data []int, layouts []layoutT, only string) {
 		}
 	}
 	rep.Sample(caseT{Data: data, Points: pts})
+}
+
+// interViol reports a disagreement of a run through the intermediate tier.
+func (w *world) interViol(data []int, pts []pt, q queryT, lay layoutT) func(clause string, nInter int, order []int, wantS string, got verdict, note string) {
+	rep := w.rep
+	return func(clause string, nInter int, order []int, wantS string, got verdict, note string) {
+		cs := caseT{Data: data, Query: q.ID, Layout: lay, Order: order, CompAt: 0, Inter: nInter, Points: pts}
+		rep.Sample(cs)
+		scenario := q.ID
+		if clause == "intermediate.root_never_completes" || clause == "intermediate.compute_node_never_completes" {
+			scenario = fmt.Sprintf("intermediates=%d", nInter)
+		}
+		rep.Violate(vevid.Violation{Clause: clause, Scenario: scenario, Site: "query.intermediateTaskProcessor.Process",
+			Detail: fmt.Sprintf("points %v query %q layout %s via %d intermediate node(s), leaf answers delivered to the compute node in order %v%s: want %s got %s",
+				pts, q.SQL, lay, nInter, order, note, wantS, got),
+			Replay: cs})
+	}
+}
+
+// splitStage: group-by answers of a leaf split over two receivers, for every number of groups G <= maxG and every
+// split shape (k groups hash to receiver 0, G-k to receiver 1): the host names are picked by the hash the leaf uses.
+// Layouts: all groups on one leaf (plus a leaf without data), and the groups routed over two shards on two leaves.
+func (w *world) splitStage(f *vevid.Flags, idx *int64, maxG int) {
+	rep := w.rep
+	var class [2][]string
+	for i := 0; len(class[0]) < maxG || len(class[1]) < maxG; i++ {
+		h := fmt.Sprintf("h%d", i)
+		c := int(xxhash.Sum64String(h) % 2)
+		if len(class[c]) < maxG {
+			class[c] = append(class[c], h)
+		}
+	}
+	lays := []layoutT{{NumShards: 1, Blocks: [][]int{{0}}, Extra: "emptyleaf"}, {NumShards: 2, Blocks: [][]int{{0}, {1}}}}
+	for g := 1; g <= maxG; g++ {
+		for k := 0; k <= g; k++ {
+			*idx++
+			if !f.Mine(*idx) {
+				continue
+			}
+			if f.Expired() {
+				rep.Cap(fmt.Sprintf("deadline at split case %d", *idx))
+				return
+			}
+			var pts []pt
+			for i := 0; i < g; i++ {
+				h := class[1][(i-k+maxG)%maxG]
+				if i < k {
+					h = class[0][i]
+				}
+				pts = append(pts, pt{Host: h, Field: "f1", Slot: i % 3, Val: float64(int(1) << uint(i))})
+			}
+			want := w.splitCase(pts, lays)
+			rep.Outcome(fmt.Sprintf("split:g=%d:k=%d:%s", g, k, want.key()))
+		}
+	}
+}
+
+var splitQuery = queryT{ID: "split_by_host", SQL: "select f1 from $m group by host"}
+
+func (w *world) splitCase(pts []pt, lays []layoutT) verdict {
+	q := splitQuery
+	refLay := layoutT{NumShards: 1, Blocks: [][]int{{0}}}
+	refMetric, _ := w.writePts(pts, refLay)
+	sql := strings.ReplaceAll(q.SQL, "$m", refMetric)
+	run, planErr, err := w.c.LeafResponses(sql, w.tr, refLay.leaves())
+	if err != nil || planErr != nil {
+		vevid.OpFailed("split reference leaf run: %v %v", err, planErr)
+	}
+	var want verdict
+	if rs, err := w.c.Deliver(sql, w.tr, run, nil, -1); err != nil {
+		want.Err = err.Error()
+	} else {
+		want.Canon = canon(rs)
+	}
+	for _, lay := range lays {
+		metric, _ := w.writePts(pts, lay)
+		w.viaIntermediates(strings.ReplaceAll(q.SQL, "$m", metric), lay, want, w.interViol(nil, pts, q, lay))
+	}
+	return want
 }
 
 func keys(m map[int]bool) []int {
